@@ -23,7 +23,7 @@ MANIFEST_ENTRY = dict(
 
 def scenarios(ctx: Ctx):
     rng = random.Random(ctx.seed * 15485863 + 15)
-    n = 600 if ctx.quick else 10000
+    n = 400 if ctx.quick else 10000
     topos = rtcheck.topologies(rng, ctx.quick)
     scs = []
     for i in range(n):
@@ -50,8 +50,8 @@ def run(ctx: Ctx) -> Outcome:
     if ctx.replay:
         return rtcheck.replay_outcome('C15', ctx)
     scs = scenarios(ctx)
-    model_cov, extra_scs, notes = rtmodel.model_check_and_generate('C15', ctx)
-    out = rtcheck.validate('C15', scs + extra_scs, ctx, extra_cov=model_cov)
+    model_cov, guided, notes = rtmodel.model_check_and_generate('C15', ctx)
+    out = rtcheck.validate('C15', scs, ctx, extra_traces=guided, extra_cov=model_cov)
     out.notes += notes
     out.assumptions = ['ground truth for "forwarded to exactly one worker" is the set of SUBMIT/SUBMIT_BATCH payloads put on worker channels']
     return out
